@@ -7,8 +7,10 @@ for D in seeded/C*-*; do
   [ -f $D/patch.diff ] || continue
   # a change seeded against one property may be the business of a neighbouring one as well
   case "$id" in
-    C03-3|C03-4) X="C04";; C04-4) X="C03";; C14-3) X="C01";; C15-4) X="C07";; C04-3) X="C06";; C10-4) X="C05";; *) X="";;
+    C03-3|C03-4) X="C04";; C04-4) X="C03";; C14-3) X="C01";; C15-4) X="C07";; C04-3) X="C06";; C10-4) X="C05";;
+    C04-5|C14-5|C09-6) X="C08";; C05-5) X="C16";; C12-5) X="C20";; C16-5) X="C19";; C17-6) X="C11";; C20-5) X="C05";; *) X="";;
   esac
+
   R=$(tools/try_mutant.sh /verif/$D/patch.diff $P $X 2>&1)
   git -C /repo checkout -- . 2>/dev/null
   python3 - "$D" "$P" "$R" <<'PY'
